@@ -748,19 +748,23 @@ def run(ctx):
     ctx.level = "exploration"
     nshard = 6 if ctx.quick else 16  # x 5 hash seeds = 30 / 80 sub-processes
     ctx.rule = (
-        "every run = the same enumeration repeated in sub-processes with PYTHONHASHSEED in %s (the parent evaluates nothing). "
-        "Relations: zero-ary, unary (lambda / ExpressionFunction), boolean, and for every non-empty subset of 4 roles "
-        "(domains [0,1], ['','b'], [0,1,2], [5,2]) in EVERY variable-list order: matrix (injective table; table with +-inf, a tie, "
-        "2**31), neutral, python function (positional arg names / functools.partial / f_kwargs=True / **kwargs), expression "
-        "(f_kwargs=True; with a return statement; f_kwargs=False; constraint_from_str; arguments renamed and listed in "
-        "variable_names order; external source file); conditionals = condition kind x consequence kind x return_neutral over "
-        "disjoint/overlapping/nested/equal scopes; role->name maps (%s). Per relation: every partial assignment (incl. empty and "
-        "full) x every ordered partition of the sliced set into <=3 slice() steps (+ a leading empty step; thorough: + reversed "
-        "dict order); the final relation must have exactly the remaining dimensions and equal the reference function on every "
-        "completion through kwargs, positional (dimensions order), get_value_for_assignment(dict) and (list). Quick: arity 4 "
-        "only for matrix/py_kw/expr_kw/constraint_from_str with one name map; thorough: all kinds. Non-trivial = arity >= 2 and "
-        "a non-empty partial assignment."
-        % (HASH_SEEDS, "3 maps" if ctx.quick else "all 24 permutations of x,y,z,w + a second name pool")
+        "every run = the same enumeration in sub-processes with PYTHONHASHSEED in %s (the parent evaluates nothing): relations "
+        "containing an expression kind under all of them, the others under the first two. Relations: zero-ary, unary (lambda / "
+        "ExpressionFunction), boolean, and for every non-empty subset of 4 roles (domains [0,1], ['','b'], [0,1,2], [5,2]) in "
+        "EVERY variable-list order: matrix (injective table; table with +-inf, a tie, 2**31), neutral, python function "
+        "(positional arg names / functools.partial / f_kwargs=True / **kwargs), expression (f_kwargs=True; with a return "
+        "statement; f_kwargs=False with variables listed in order of appearance; constraint_from_str; arguments renamed and "
+        "listed in variable_names order; external source file); conditionals = condition kind x consequence kind x "
+        "return_neutral over disjoint/overlapping/nested/equal scopes; role->name maps: %s. Per relation: every partial "
+        "assignment (incl. empty and full) x every ordered partition of the sliced set into <=3 slice() steps (quick: + an empty "
+        "slice before the one-step slice, <=2 steps at arity 4; thorough: + a leading empty step on all <=2-step partitions, + "
+        "reversed dict order). After every step the relation must have exactly the not yet assigned dimensions; the final "
+        "relation must equal the reference function on every completion through kwargs, positional (dimensions order), "
+        "get_value_for_assignment(dict) and (list). Quick: arity 4 only for expression/f_kwargs=True, conditionals over <=3 "
+        "variables; thorough: all kinds at arity 4, conditionals over <=4 variables. Non-trivial = arity >= 2 and a non-empty "
+        "partial assignment."
+        % (HASH_SEEDS, "1-2 maps" if ctx.quick else "all 24 permutations of x,y,z,w + a second name pool at arity <=2, 8 maps at "
+           "arity 3, 3 at arity 4 (expression kinds); 2-4 maps otherwise")
     )
     ctx.assumptions = [
         "Documented exception accepted: ConditionalRelation(return_neutral=False).slice with a false, fully assigned condition "
